@@ -10,7 +10,7 @@ WORK = os.path.join(ROOT, "work")
 REPLAYS = os.path.join(ROOT, "replays")
 EVID = os.environ.get("VERIF_EVIDENCE_DIR") or os.path.join(ROOT, "evidence")
 CORPUS = os.path.join(ROOT, "corpus")
-REPO = "/repo"
+REPO = os.environ.get("VERIF_REPO", "/repo")   # background sweeps on a frozen snapshot set VERIF_REPO; registered commands never do
 SPECGEN = os.path.join(LEAN, ".lake", "build", "bin", "specgen")
 SEQDRV = os.path.join(HARNESS, "target", "release", "seqdrv")
 ALLOWED_AXIOMS = {"propext", "Classical.choice", "Quot.sound"}
